@@ -1,14 +1,15 @@
 import CorsVerif.Proofs.Accepted
 import CorsVerif.Proofs.C06Assembly
 import CorsVerif.Proofs.OriginsStable
+import CorsVerif.Proofs.NetFacts
 /-
   C06 — Config() round-trips: Reconfigure(Config()) is a no-op and constructors agree.
 
   Proved:
-    * C06_roundtrip: for every accepted configuration (brackets only around IPv6 literals), the
-      `Config` rendered by `Config()` validates, builds *the same handler function*, and renders
-      again to the same `Config` in every field other than `Origins` (whose patterns are among the
-      configured ones and build an equivalent tree);
+    * C06_roundtrip: for every accepted configuration, the `Config` rendered by `Config()` validates,
+      builds *the same handler function*, and renders again to the same `Config` in every field other
+      than `Origins` (whose elements parse to listed patterns and build an equivalent tree);
+    * C06_stable: after one such round trip `Config()` is a fixed point, `Origins` included;
     * C06_ctor: a zero-value middleware reconfigured with &c and NewMiddleware(c) are the same
       function of c (same configuration, debug off);
     * C06_flags, C06_status, C06_render_ipv6 (the repaired defect 7.1).
@@ -17,10 +18,10 @@ import CorsVerif.Proofs.OriginsStable
   (`Itoa` against the digit readers), Proofs/RoundTrip.lean (rendering an accepted pattern gives
   back the string it was parsed from), Proofs/TreeRoundTrip.lean, Proofs/CfgRoundTrip.lean
   (methods, request headers, response headers, max-age), Proofs/C06Assembly.lean.
-  Not proved: that the *list* `Origins` of `Config()` is literally unchanged after one round trip
-  (order and multiplicity; it needs the exact multiset of stored entries under subsumption), and
-  bracketed IPv4 literals (`http://[1.2.3.4]`, accepted by the code, rendered without brackets).
-  Both are covered by the `roundtrip` relational suite (Go against Go).
+  Proofs/RenderIdem.lean (parsing the rendering of an accepted pattern gives the same pattern, also for
+  an IPv4 address written in brackets, which is rendered without them), Proofs/StoreAbs … OriginsStable
+  (what `Tree.Insert` does to the multiset of stored entries, and why the list stabilises).
+  No configuration is excluded.
 -/
 namespace Cors
 open Gen
@@ -82,8 +83,7 @@ theorem newConfig_status (i : ICfg) : (newConfig i).status = statusOf i.statusMi
   rfl
 
 open Validate CfgRT TreeRT C06A in
-/-- **C06 (round trip).** For every accepted configuration (whose origin patterns use brackets
-only around hosts containing a colon, i.e. IPv6 literals): validating the `Config` that `Config()`
+/-- **C06 (round trip).** For every accepted configuration: validating the `Config` that `Config()`
 returns succeeds; the middleware built from it — equivalently, the same middleware after
 `Reconfigure(Config())` — is the same handler function (same status, headers and hand-over for
 every debug mode, request and pre-existing header map); and the two `Config()` values agree on
@@ -91,8 +91,7 @@ every field other than `Origins` (whose patterns build an equivalent tree).
 
 `hext` is the hypothesis of `C01_parsed` (the IPv6 oracle accepts no literal starting with `*`). -/
 theorem C06_roundtrip (ext : Ext) (hext : ∀ h info, ext.ip6 h = some info → h.head? ≠ some 42)
-    (cfg : Config) (icfg : ICfg) (acc : newInternalConfig ext cfg = .ok icfg)
-    (hbr : ∀ raw ∈ cfg.origins, ∀ p, Pat.parsePattern ext raw = .ok p → (91 : Nat) ∈ raw → (58 : Nat) ∈ p.value) :
+    (cfg : Config) (icfg : ICfg) (acc : newInternalConfig ext cfg = .ok icfg) :
     ∃ icfg', newInternalConfig ext (newConfig icfg) = .ok icfg' ∧
       Serve.serve icfg' = Serve.serve icfg ∧
       (newConfig icfg').credentialed = (newConfig icfg).credentialed ∧
@@ -132,7 +131,7 @@ theorem C06_roundtrip (ext : Ext) (hext : ∀ h info, ext.ip6 h = some info → 
     rw [origins_eq _ _ _ _ _ _ hne] at this
     exact this
   -- the round trips of the fields
-  have hO := origins_part ext hext cfg.credentialed (Validate.pnaAny cfg) cfg.tolInsecure cfg.tolPSL cfg.origins hne hclean hbr
+  have hO := origins_part ext hext cfg.credentialed (Validate.pnaAny cfg) cfg.tolInsecure cfg.tolPSL cfg.origins hne hclean
   simp only [] at hO
   obtain ⟨hOne, hOerr, hOtree⟩ := hO
   have hM := methods_roundtrip cfg.methods
@@ -266,13 +265,12 @@ theorem Config.ext' (a b : Config) (h1 : a.origins = b.origins) (h2 : a.credenti
 
 open Validate CfgRT TreeRT C06A in
 /-- **C06 (last sentence: after one round trip `Config()` no longer changes).** For every accepted
-configuration (brackets only around hosts containing a colon): the `Config` that `Config()` returns is
+configuration: the `Config` that `Config()` returns is
 accepted; the `Config()` of *that* middleware is accepted as well, and from then on the value is a
 fixed point — literally equal in every field, `Origins` included, whatever redundant or mutually
 subsuming patterns the original listed and in whatever order. -/
 theorem C06_stable (ext : Ext) (hext : ∀ h info, ext.ip6 h = some info → h.head? ≠ some 42)
-    (cfg : Config) (icfg : ICfg) (acc : newInternalConfig ext cfg = .ok icfg)
-    (hbr : ∀ raw ∈ cfg.origins, ∀ p, Pat.parsePattern ext raw = .ok p → (91 : Nat) ∈ raw → (58 : Nat) ∈ p.value) :
+    (cfg : Config) (icfg : ICfg) (acc : newInternalConfig ext cfg = .ok icfg) :
     ∃ icfg' icfg'', newInternalConfig ext (newConfig icfg) = .ok icfg' ∧
       newInternalConfig ext (newConfig icfg') = .ok icfg'' ∧
       newConfig icfg'' = newConfig icfg' := by
@@ -295,20 +293,16 @@ theorem C06_stable (ext : Ext) (hext : ∀ h info, ext.ip6 h = some info → h.h
     rw [origins_eq _ _ _ _ _ _ hne] at this
     exact this
   have hA : Acceptable ext cfg.credentialed (Validate.pnaAny cfg) cfg.tolInsecure cfg.tolPSL cfg.origins :=
-    ⟨hne, nil_of_flatMap_nil hclean, hbr⟩
-  have hA1 := originsOf_acceptable ext hext _ _ _ _ _ hA
+    ⟨hne, nil_of_flatMap_nil hclean⟩
   -- first round trip
-  obtain ⟨icfg', acc', _, _⟩ := C06_roundtrip ext hext cfg icfg acc hbr
+  obtain ⟨icfg', acc', _, _⟩ := C06_roundtrip ext hext cfg icfg acc
   obtain ⟨_, hb'⟩ := (accepted_iff ext _ icfg').mp acc'
   subst hb
   have ho1 : (newConfig (Validate.build ext cfg)).origins =
       originsOf ext cfg.credentialed (Validate.pnaAny cfg) cfg.tolInsecure cfg.tolPSL cfg.origins := rfl
   -- second round trip
-  have hbr1 : ∀ raw ∈ (newConfig (Validate.build ext cfg)).origins, ∀ p, Pat.parsePattern ext raw = .ok p →
-      (91 : Nat) ∈ raw → (58 : Nat) ∈ p.value := by
-    rw [ho1]; exact hA1.br
   obtain ⟨icfg'', acc'', _, f2, f3, f4, f5, f6, f7, f8, f9, f10, f11⟩ :=
-    C06_roundtrip ext hext (newConfig (Validate.build ext cfg)) icfg' acc' hbr1
+    C06_roundtrip ext hext (newConfig (Validate.build ext cfg)) icfg' acc'
   obtain ⟨_, hb''⟩ := (accepted_iff ext _ icfg'').mp acc''
   refine ⟨icfg', icfg'', acc', acc'', ?_⟩
   apply Config.ext' _ _ ?_ f2 f3 f4 f5 f6 f7 f8 f9 f10 f11
@@ -323,6 +317,20 @@ theorem C06_stable (ext : Ext) (hext : ∀ h info, ext.ip6 h = some info → h.h
   rw [ho3, ho2]
   exact originsOf_stable ext hext _ _ _ _ _ hA
 
+/-- `C06_roundtrip` and `C06_stable` for the library answers as the driver uses them (`Net.std`: IDNA and
+public-suffix answers from the real libraries, IPv6 text from the model of `net/netip`): no hypothesis is left. -/
+theorem C06_stable_std (idna etld : Bytes → Bool) (cfg : Config) (icfg : ICfg)
+    (acc : newInternalConfig (Net.std idna etld) cfg = .ok icfg) :
+    ∃ icfg' icfg'', newInternalConfig (Net.std idna etld) (newConfig icfg) = .ok icfg' ∧
+      newInternalConfig (Net.std idna etld) (newConfig icfg') = .ok icfg'' ∧
+      Serve.serve icfg' = Serve.serve icfg ∧
+      newConfig icfg'' = newConfig icfg' := by
+  obtain ⟨i1, i2, a1, a2, heq⟩ := C06_stable (Net.std idna etld) (Net.hext_std idna etld) cfg icfg acc
+  obtain ⟨i1', a1', hserve, _⟩ := C06_roundtrip (Net.std idna etld) (Net.hext_std idna etld) cfg icfg acc
+  rw [a1] at a1'
+  cases a1'
+  exact ⟨i1, i2, a1, a2, hserve, heq⟩
+
 /-! A test (evaluated by the compiler, not a theorem): one round trip can be needed, and is enough.
 Listing the narrower pattern first keeps both in the tree; `Elems` sorts the wildcard first, so the
 rebuilt tree drops the narrower one; from then on nothing changes. -/
@@ -335,10 +343,12 @@ def rawsS : List Bytes := [Spec.b "https://b.a.com", Spec.b "https://*.a.com"]
 #guard originsOf extS false false false false (originsOf extS false false false false (originsOf extS false false false false rawsS)) == [Spec.b "https://*.a.com"]
 end
 
-/-- Non-vacuity of the bracket hypothesis: it holds for ordinary and IPv6 patterns, and is what a
-bracketed IPv4 literal violates. -/
-example : ((91 : Nat) ∈ Spec.b "https://example.com:8080") = False := by decide
-example : (58 : Nat) ∈ Spec.b "2001:db8::1" := by decide
+/-! A test (evaluated): an IPv4 address written in brackets is accepted, rendered without the brackets,
+and the rendering parses to the same pattern (`RenderIdem.parse_render` is the theorem). -/
+#guard (match Pat.parsePattern extS (Spec.b "http://[127.0.0.1]:8080") with
+  | .ok p => RoundTrip.renderOf p == Spec.b "http://127.0.0.1:8080" &&
+      (match Pat.parsePattern extS (RoundTrip.renderOf p) with | .ok q => q == p | .error _ => false)
+  | .error _ => false)
 
 #print axioms C06_ctor
 #print axioms C06_flags
@@ -346,5 +356,6 @@ example : (58 : Nat) ∈ Spec.b "2001:db8::1" := by decide
 #print axioms C06_render_ipv6
 #print axioms C06_roundtrip
 #print axioms C06_stable
+#print axioms C06_stable_std
 
 end Cors
